@@ -101,14 +101,15 @@ Definition app (f x : V) (A : sty) : V :=
   end.
 
 (* interpretation of constants (by name and semantic type) and valuations of
-   variables and schematic variables (by name and semantic type) *)
+   variables and schematic variables (by name and SYNTACTIC type: two variables
+   with the same name and different type annotations are different variables) *)
 Variable IC : string -> sty -> V.
-Variable sigV sigS : string -> sty -> V.
+Variable sigV sigS : string -> ty -> V.
 
 Fixpoint eval (env : list (sty * V)) (t : tm) : sty * V :=
   match t with
-  | SVar n T => let s := tysem T in (s, sigS n s)
-  | Var n T => let s := tysem T in (s, sigV n s)
+  | SVar n T => (tysem T, sigS n T)
+  | Var n T => (tysem T, sigV n T)
   | Const n T => let s := tysem T in (s, IC n s)
   | Comb f a =>
       let '(sf, vf) := eval env f in
